@@ -172,6 +172,10 @@ def filter_buildable(jobs):
     out = []
     for j in jobs:
         if isinstance(j, dict) and isinstance(j.get('u'), dict) and 'mode' in j['u']:
+            # this test CREATES the algebra in the parent of the forked workers: where a sibling configuration is to come first
+            # (pre_u: state shared between algebras of one process), it has to come first here as well
+            if isinstance(j.get('pre_u'), dict) and 'mode' in j['pre_u']:
+                buildable(j['pre_u'], j.get('opts'))
             if buildable(j['u'], j.get('opts')):
                 out.append(j)
         elif isinstance(j, dict) and j.get('mix'):
